@@ -106,18 +106,6 @@ Qed.
 
 (* ---- transitions taken over from Client/Model.v ------------------------------------------- *)
 
-(* the receive-loop steps that step2 replaces never run through [step] *)
-Definition old_ok (b : state) (l : label) : Prop :=
-  match l with
-  | LStep ARx _ => match rx b with RDispatch _ _ | RNotify _ _ | RReconnect => False | _ => True end
-  | _ => True
-  end.
-
-Lemma lifted_old_ok : forall s l, lifted_ok s l -> old_ok (base s) l.
-Proof.
-  intros s l H. destruct l as [t h|[t|] clk|f|]; simpl in *; auto. destruct (rx (base s)); auto.
-Qed.
-
 Lemma settle_plain : forall ks, plain_rx (settle ks).
 Proof.
   intros ks. destruct (settle_cases ks) as [E|[(f & r & E)|(sid & r & E)]]; rewrite E; exact I.
@@ -388,7 +376,7 @@ Proof.
   assert (RJ : forall (e : event) l i, (forall v, e <> EDisp i v) -> In (EDisp i VRetry) (e :: l) -> In (EDisp i VRetry) l).
   { intros e l i N [X|X]; auto. destruct (N _ X). }
   assert (FAIL : wire_step s (fail2 (upd_base (log (ERecv sid seq)) s))).
-  { apply ws_quiet; [rewrite base_fail2; reflexivity|]. unfold same_salt, fail2, warn2. cbn [upd_base wb wch].
+  { apply ws_quiet; [rewrite base_fail2; reflexivity|]. unfold same_salt, fail2, warn2. cbn [upd_base wb wch bump_failed].
     destruct (wch s) as [|cap n]; [|destruct (Nat.ltb n cap)]; repeat split; auto;
       unfold rejected; simpl; intros i [X|X]; try discriminate; auto. }
   destruct (negb (decodes (hinted_for b (base s)) b)); [exact FAIL|].
@@ -446,7 +434,7 @@ Proof.
   - eapply step1_wire; eauto. apply lifted_old_ok; auto.
   - apply ws_quiet; [reflexivity|]. repeat split; auto.
   - eapply ws_adopt; try reflexivity; [auto|discriminate].
-  - apply ws_quiet; [rewrite base_warn2; reflexivity|]. unfold same_salt, warn2. cbn [upd_base wb wch].
+  - apply ws_quiet; [rewrite base_warn2; reflexivity|]. unfold same_salt, warn2. cbn [upd_base wb wch bump_failed].
     destruct (wch s) as [|cap n]; [|destruct (Nat.ltb n cap)]; repeat split; auto.
   - apply dispatch2_wire.
   - apply ws_quiet; [reflexivity|]. repeat split; auto.
